@@ -53,6 +53,9 @@ type Scenario struct {
 		BodyEnd       string     `json:"bodyEnd"` // eof | unexpected
 	} `json:"req"`
 	Script [][]string `json:"script"`
+	// Duplex: the handler reads the request on one goroutine while it writes the response on
+	// another (only generated for scenarios whose outcome does not depend on their interleaving).
+	Duplex bool `json:"duplex,omitempty"`
 	// Relayed lists the error message texts the backend script emits (hex), so the
 	// canonicaliser can tell relayed texts (compared exactly) from generated ones.
 	Relayed []string `json:"relayed"`
@@ -166,10 +169,9 @@ type backendRun struct {
 	panicked bool
 }
 
-var (
-	curMu  sync.Mutex
-	curRun *backendRun
-)
+// runKey carries the scenario's backendRun to the scripted handler through the request context,
+// so that any number of scenarios can be in flight at once.
+type runKey struct{}
 
 func classifyReadErr(err error) string {
 	switch {
@@ -184,7 +186,10 @@ func classifyReadErr(err error) string {
 
 func scriptedHandler(kind string) http.Handler {
 	return http.HandlerFunc(func(w http.ResponseWriter, r *http.Request) {
-		run := curRun
+		run, _ := r.Context().Value(runKey{}).(*backendRun)
+		if run == nil {
+			return
+		}
 		run.calls++
 		if run.calls > 1 {
 			return
@@ -195,7 +200,39 @@ func scriptedHandler(kind string) http.Handler {
 		run.ctx = r.Context()
 		run.readEnd = "open"
 		r.Body = teeBody{r.Body, run}
-		for _, op := range run.sc.Script {
+		script := run.sc.Script
+		if run.sc.Duplex {
+			// full duplex: the request side is driven from its own goroutine while this one
+			// produces the response
+			var readOps, otherOps [][]string
+			for _, op := range script {
+				switch op[0] {
+				case "readn", "readall", "close":
+					readOps = append(readOps, op)
+				default:
+					otherOps = append(otherOps, op)
+				}
+			}
+			done := make(chan struct{})
+			go func() {
+				defer close(done)
+				defer func() {
+					if r := recover(); r != nil {
+						run.panicked = true
+					}
+				}()
+				runScriptOps(run, readOps, w, r)
+			}()
+			defer func() { <-done }()
+			script = otherOps
+		}
+		runScriptOps(run, script, w, r)
+	})
+}
+
+func runScriptOps(run *backendRun, script [][]string, w http.ResponseWriter, r *http.Request) {
+	{
+		for _, op := range script {
 			switch op[0] {
 			case "readn": // readn k buf: read until k bytes were read in total by this op, or error
 				k, _ := strconv.Atoi(op[1])
@@ -236,13 +273,15 @@ func scriptedHandler(kind string) http.Handler {
 				}
 				_ = n
 				run.writes = append(run.writes, res)
+			case "close": // the handler closes the request body (possibly more than once)
+				_ = r.Body.Close()
 			case "flush":
 				if f, ok := w.(http.Flusher); ok {
 					f.Flush()
 				}
 			}
 		}
-	})
+	}
 }
 
 // readn needs the bytes too: patch Read loop above to record (kept simple by wrapping body)
@@ -377,6 +416,25 @@ func runScenario(sc *Scenario, fresh bool) string {
 	if err != nil {
 		return "config-rejected"
 	}
+	vanguard.VerifPoolTrace(true)
+	out := serveScenario(sc, t)
+	trace, poolViolations := vanguard.VerifPoolTrace(false)
+	lastPoolTrace = trace
+	poolViolations = append(poolViolations, takeFakeViolations()...)
+	if len(poolViolations) > 0 {
+		// never predicted by the model: a pooled buffer or compressor was released twice, used
+		// after its release, or used by two holders at once
+		sort.Strings(poolViolations)
+		out += " poolviol=" + strings.Join(poolViolations, ",")
+	}
+	return out
+}
+
+// lastPoolTrace: the Get/Put/Wrap events of the last run (for the pool_trace op).
+var lastPoolTrace []string
+
+// serveScenario serves the scenario on t and renders the observation; it is re-entrant.
+func serveScenario(sc *Scenario, t *vanguard.Transcoder) string {
 	target := unhs(sc.Req.Path)
 	if q := unhs(sc.Req.Query); q != "" || strings.HasSuffix(target, "?") {
 		target += "?" + q
@@ -399,7 +457,7 @@ func runScenario(sc *Scenario, fresh bool) string {
 	if sc.Req.ProtoMajor == 2 {
 		protoStr, minor = "HTTP/2.0", 0
 	}
-	ctx, cancelOuter := context.WithCancel(context.Background())
+	ctx, cancelOuter := context.WithCancel(context.WithValue(context.Background(), runKey{}, run))
 	defer cancelOuter()
 	req := (&http.Request{
 		Method: unhs(sc.Req.Method), URL: u, Proto: protoStr, ProtoMajor: sc.Req.ProtoMajor, ProtoMinor: minor,
@@ -407,7 +465,6 @@ func runScenario(sc *Scenario, fresh bool) string {
 		RequestURI: target,
 	}).WithContext(ctx)
 	rec := &recorder{ResponseRecorder: httptest.NewRecorder()}
-	curRun = run
 	func() {
 		defer func() {
 			if r := recover(); r != nil {
@@ -419,7 +476,6 @@ func runScenario(sc *Scenario, fresh bool) string {
 		}()
 		t.ServeHTTP(rec, req)
 	}()
-	curRun = nil
 	if observeBackend != nil {
 		observeBackend(run)
 	}
